@@ -40,6 +40,8 @@ structure DState where
   cmp : CmpTable
   /-- the thread the history runs on -/
   thread : ThreadState
+  /-- has an operation been executed already? -/
+  started : Bool := false
 
 def initWorld : World := World.init [(1, builtin)] [(1, builtin)] [(1, builtin)]
 
@@ -164,6 +166,20 @@ def stepTok (d : DState) (tok : String) : DState × String :=
     match num 2, num 3 with
     | some n, some s => let r := w.step c (.store e (.addOwned n s)); ({ d with w := r.1 }, showRes r.2)
     | _, _ => (d, "bad-case")
+  | some "ax", some e => guard e fun _ =>
+    -- `add_template_owned` with a borrowed name (1), a borrowed source (2) or both (3): the arm of
+    -- `insert_cow` is chosen by `insertArmOf`
+    match num 2, num 3, num 4 with
+    | some n, some s, some m =>
+      let op := if insertArmOf (m == 1 || m == 3) (m == 2 || m == 3) then Op.addBorrowed n s else Op.addOwned n s
+      let r := w.step c (.store e op); ({ d with w := r.1 }, showRes r.2)
+    | _, _, _ => (d, "bad-case")
+  | some "em", some _ =>
+    -- the history starts from `Environment::empty()` (only as the first operation)
+    if d.started then (d, "late") else ({ d with w := World.initEmpty }, "ok")
+  | some "ns", some e => guard e fun _ =>
+    -- rendering a source from a string under a name: only the lookups of its includes reach the store
+    ({ d with w := (replayLog d.cmp d.w e (parseLog f 5)).1 }, "ns")
   | some "rm", some e => guard e fun _ =>
     match num 2 with
     | some n => ({ d with w := (w.step c (.store e (.remove n))).1 }, "ok")
@@ -212,7 +228,14 @@ def stepTok (d : DState) (tok : String) : DState × String :=
       | some 0 | some 1 | some 2 | some 13 => panickingConversion true d.thread body
       | _ => d.thread
     ({ d with thread := t' }, "panic")
-  | some "jk", some e => guard e fun _ => (d, "jk")  -- failing compiles/renders do not touch the environment
+  | some "jk", some e => guard e fun _ =>
+    -- failing compiles/renders do not touch the environment; 8 and 9 are conversions that return but
+    -- leak one / two parked values in the thread's handle registry
+    let t' := match num 2 with
+      | some 8 => (d.thread.run [.enter, .park 1, .leave])
+      | some 9 => (d.thread.run [.enter, .park 1, .park 2, .leave])
+      | _ => d.thread
+    ({ d with thread := t' }, "jk")
   | some "th", some e => guard e fun _ =>
     -- the phase ends with a lookup of every name
     ({ d with w := (List.range 5).foldl (fun w n => (w.step c (.store e (.get n))).1) w }, "ok")
@@ -234,6 +257,7 @@ def runCase (cmp : CmpTable) (case : String) : String :=
   let d0 : DState := { w := initWorld, loaderIds := [0], phase := 0, cmp := cmp, thread := ThreadState.clean }
   let (_, outs) := toks.foldl (fun (acc : DState × List String) tok =>
     let (d', r) := stepTok acc.1 tok
+    let d' := { d' with started := true }
     (d', s!"{r}~T{b2n (!emitsData d'.thread)}|{showEnvs d'}" :: acc.2)) (d0, [])
   " / ".intercalate outs.reverse
 
